@@ -11,6 +11,12 @@ from .. import _punycode
 
 RECODE_HOSTNAME_FOR = ("http:", "https:", "mailto:")
 
+# mdurl builds its percent-encoding lookup tables lazily, on first use, and publishes
+# them before they are filled. Build the two tables used below at import time, so that
+# the first renders on several threads cannot observe a partial table.
+mdurl.encode("")
+mdurl.decode("", mdurl.DECODE_DEFAULT_CHARS + "%")
+
 
 def normalizeLink(url: str) -> str:
     """Normalize destination URLs in links
